@@ -162,7 +162,10 @@ def invoke_variants(ctx, rng):
                         r_ = getattr(comp.find_class('K'), e.name)(**kwargs)
                     else:
                         r_ = getattr(k0, e.name)(**kwargs)
-            except BudgetExceeded:
+            except (BudgetExceeded, MemoryError, RecursionError):
+                # no reference bounds these programs: one that recurses or grows a value without end runs
+                # into the CPU budget, the worker's memory limit or the interpreter's stack - at a point
+                # that depends on timing / allocation, so it decides nothing
                 r_ = 'budget'
             except Exception as ex:
                 r_ = 'raised %s' % type(ex).__name__
